@@ -402,7 +402,7 @@ func e1Units(scs []engine.Scenario) []engine.Unit {
 func init() {
 	engine.Register(&engine.Property{
 		ID: "C01", Level: "model_checking",
-		Rule: "E1: breadth-first search over real HTTP requests pushed through the composed application (states = canonicalised database + per-browser jars + oracle memory); every transition that changes a session's user must be justified by ground truth; classes = distinct justification kinds and rejected-attempt kinds hit",
+		Rule:  "E1: breadth-first search over real HTTP requests pushed through the composed application (states = canonicalised database + per-browser jars + oracle memory); every transition that changes a session's user must be justified by ground truth; classes = distinct justification kinds and rejected-attempt kinds hit",
 		Units: func(tier string) []engine.Unit { return e1Units(c01Scenarios(tier)) },
 		Assumptions: []string{
 			"storer with database semantics, client-state stores with documented event semantics, deterministic crypto/rand, virtual clock (harness, DESIGN.md 2)",
